@@ -74,7 +74,7 @@ def run(run):
                 'oracle: strict parse of all output + in-order matching of responses to requests by tid/unit/fc (+ model PDU for data access); '
                 'distinct = whole case; non-trivial = history has >= 2 requests')
     run.assumptions = ['reference receivers parse the output', 'register-file model predicts data-access responses', 'requests after a force-listen-only request are not judged']
-    n = run.scale(90, 3000)
+    n = run.scale(90, 24000)
     for front, framing in SH.FRONT_FRAMINGS:
         for i in range(n):
             case = SH.gen_case(r, front, framing, uniq, max_per_read=1 if framing == 'tls' else 3)
@@ -91,6 +91,9 @@ def run(run):
                      sample={'front': front, 'framing': framing, 'single': case['layout']['single'], 'hosted': sorted(case['layout']['units']), 'flags': case['flags'],
                              'reads': [[(u, t, m['fc']) for u, t, m in rd] for rd in case['reads']][:6], 'verdict': 'one matching response per request' if ok else 'differs'},
                      sample_class=(front, framing))
+    if run.thorough and run.shard in (None, 0):
+        from . import loopback
+        loopback.histories(run, r, uniq, 160)
     run.floor('histories per front-end (min)', min(run.counters.get('histories:%s' % f, 0) for f in FE.ALL), 80 if run.shard is None else 5)
     run.floor('clean-region histories', run.counters.get('clean_region_cases', 0), 500 if run.shard is None else 30)
     run.floor('responses matched to requests', run.counters.get('responses_matched', 0), 3000 if run.shard is None else 200)
